@@ -3,8 +3,8 @@ import json
 
 from . import common as C
 
-FLOOR = {"quick": 5000, "thorough": 60000}
-NRANDOM = {"quick": 250, "thorough": 3000}
+FLOOR = {"quick": 15000, "thorough": 100000}
+NRANDOM = {"quick": 800, "thorough": 6000}
 HEADER = "#![allow(warnings)]"
 SPECS = ["{:?}", "{:#?}", "{:10?}", "{:<12?}", "{:*^14?}", "{:+?}", "{:.1?}", "{:x?}", "{:#X?}", "{:08.2?}", "{:#10?}", "{:>+9.3?}"]
 
